@@ -364,3 +364,109 @@ example : hypRet (fun w => [0x61 + UInt8.ofNat (exBase w)]) exG exH 6 true = (.o
 example : hypRet (fun w => [0x61 + UInt8.ofNat (exBase w)]) exG exHdead 4 true = (.null, 0) := by decide
 
 end SSVerif.HypBuf
+
+/-! ### intermediate states of pass 2 -/
+
+namespace SSVerif.HypBuf
+
+/-- one iteration of pass 2 when `k > 0` bytes remain in front of the word: the word is copied, a space put before it -/
+theorem fill_step (w : Bytes) (rest : List Bytes) (k : Nat) (hk : 0 < k) (T : Bytes) (log : List Nat) :
+    fill (w :: rest) ⟨List.replicate (w.length + k) 0 ++ T, w.length + k, log⟩ =
+      fill rest ⟨List.replicate (k - 1) 0 ++ 0x20 :: (w ++ T), k - 1, (k - 1) :: ((List.range' k w.length).reverse ++ log)⟩ := by
+  have hm := memcpy_spec w (List.replicate k 0) (List.replicate w.length 0) T log k (by simp) (by simp)
+  have hs := store_spec (List.replicate (k - 1) 0) (w ++ T) 0 0x20 ((List.range' k w.length).reverse ++ log) (k - 1) (by simp)
+  have e2 : List.replicate (w.length + k) (0 : UInt8) ++ T = List.replicate k 0 ++ (List.replicate w.length 0 ++ T) := by
+    rw [← List.append_assoc, List.replicate_append_replicate, Nat.add_comm]
+  have e3 : List.replicate k (0 : UInt8) ++ (w ++ T) = List.replicate (k - 1) 0 ++ 0 :: (w ++ T) := by
+    have : k = (k - 1) + 1 := by omega
+    conv => lhs; rw [this, List.replicate_succ']
+    simp
+  conv => lhs; unfold fill
+  rw [e2]
+  have hc : ¬ (w.length > w.length + k) := by omega
+  simp only [hc, if_false, Nat.add_sub_cancel_left, hm]
+  rw [if_pos hk, e3, hs]
+
+/-- **intermediate states of pass 2.**  After the words `xs` (visited first) have been placed and `k > 0` bytes remain for
+the words still to come, `c` is at offset `k - 1 `, the `k - 1` bytes in front of it are still the zeros of `calloc`, byte `k - 1`
+is the separating space, and the stores so far covered exactly the offsets `k-1 … k-1+lenSum xs-1`. -/
+theorem fill_prefix (xs : List Bytes) (hne : xs ≠ []) (k : Nat) (hk : 0 < k) (T : Bytes) (log : List Nat) :
+    ∃ lg, fill xs ⟨List.replicate (lenSum xs + k - 1) 0 ++ T, lenSum xs + k - 1, log⟩ =
+        .ok ⟨List.replicate (k - 1) 0 ++ 0x20 :: (joinV xs ++ T), k - 1, lg ++ log⟩ ∧
+      lg.Perm (List.range' (k - 1) (lenSum xs)) := by
+  induction xs generalizing T log k with
+  | nil => contradiction
+  | cons w rest ih =>
+    cases rest with
+    | nil =>
+      refine ⟨(k - 1) :: (List.range' k w.length).reverse, ?_, ?_⟩
+      · have e : lenSum [w] + k - 1 = w.length + k := by simp only [lenSum]; omega
+        rw [e, fill_step w [] k hk]
+        simp [fill, joinV]
+      · have e4 : List.range' (k - 1) (lenSum [w]) = (k - 1) :: List.range' k w.length := by
+          simp only [lenSum]
+          rw [Nat.add_zero, List.range'_succ]
+          congr 2; omega
+        rw [e4]
+        exact List.Perm.cons _ (List.reverse_perm _)
+    | cons w2 r =>
+      have hpos : 0 < lenSum (w2 :: r) := lenSum_pos (by simp)
+      generalize hL : lenSum (w2 :: r) = L' at hpos ih
+      have e : lenSum (w :: w2 :: r) + k - 1 = w.length + (L' + k) := by simp [lenSum] at hL ⊢; omega
+      obtain ⟨lg', hf, hp⟩ := ih (by simp) k hk (0x20 :: (w ++ T)) ((L' + k - 1) :: ((List.range' (L' + k) w.length).reverse ++ log))
+      refine ⟨lg' ++ (L' + k - 1) :: (List.range' (L' + k) w.length).reverse, ?_, ?_⟩
+      · rw [e, fill_step w (w2 :: r) (L' + k) (by omega), hf]
+        simp [joinV]
+      · have e1 : lenSum (w :: w2 :: r) = L' + (1 + w.length) := by simp [lenSum] at hL ⊢; omega
+        rw [e1, ← List.range'_append_1]
+        refine List.Perm.append hp ?_
+        have e4 : List.range' (k - 1 + L') (1 + w.length) = (L' + k - 1) :: List.range' (L' + k) w.length := by
+          rw [Nat.add_comm 1, List.range'_succ]
+          congr 2 <;> omega
+        rw [e4]
+        exact List.Perm.cons _ (List.reverse_perm _)
+
+theorem fill_append (xs ys : List Bytes) (s : St) :
+    fill (xs ++ ys) s = (match fill xs s with | .error e => .error e | .ok s' => fill ys s') := by
+  induction xs generalizing s with
+  | nil => simp [fill]
+  | cons w rest ih =>
+    simp only [List.cons_append, fill]
+    split
+    · rfl
+    · split
+      · rfl
+      · split
+        · split
+          · rfl
+          · exact ih _
+        · exact ih _
+
+/-- **offset 0 is stored to only while the LAST visited word (the first word of the utterance) is placed**, when that word
+is not empty (the dictionary refuses empty words, `dict_add_word`): after all other words `xs`, `c` stands at `strlen w`,
+the first `strlen w` bytes are still the zeros of `calloc`, no store so far touched an offset below `strlen w`, and the rest
+of pass 2 is the placement of `w` alone. -/
+theorem C01_hyp_block_start_written_with_last_word_only (xs : List Bytes) (hne : xs ≠ []) (w : Bytes) :
+    ∃ buf log, fill xs ⟨List.replicate (lenSum (xs ++ [w])) 0, lenSum (xs ++ [w]) - 1, []⟩ = .ok ⟨buf, w.length, log⟩ ∧
+      buf.take w.length = List.replicate w.length 0 ∧ (∀ i ∈ log, w.length ≤ i) ∧
+      fill (xs ++ [w]) ⟨List.replicate (lenSum (xs ++ [w])) 0, lenSum (xs ++ [w]) - 1, []⟩ = fill [w] ⟨buf, w.length, log⟩ := by
+  obtain ⟨lg, hf, hp⟩ := fill_prefix xs hne (w.length + 1) (by omega) [0] []
+  have e1 : lenSum (xs ++ [w]) = lenSum xs + (w.length + 1) := by simp [lenSum_append, lenSum]
+  have e2 : List.replicate (lenSum xs + (w.length + 1)) (0 : UInt8) = List.replicate (lenSum xs + (w.length + 1) - 1) 0 ++ [0] := by
+    conv => lhs; rw [show lenSum xs + (w.length + 1) = (lenSum xs + (w.length + 1) - 1) + 1 by omega, List.replicate_succ']
+  rw [e1, e2]
+  simp only [Nat.add_sub_cancel, List.append_nil] at hf
+  refine ⟨_, _, hf, ?_, ?_, ?_⟩
+  · simp
+  · intro i hi
+    have := (hp.mem_iff).1 hi
+    simp only [Nat.add_sub_cancel, List.mem_range'_1] at this
+    exact this.1
+  · rw [fill_append, hf]
+
+/-- the state between the two words of "a b": `b` and its space are placed, offset 0 untouched, `c` at 1 -/
+example : fill [[0x62]] ⟨List.replicate 4 0, 3, []⟩ = .ok ⟨[0, 0x20, 0x62, 0], 1, [1, 2]⟩ := rfl
+example : ∃ buf log, fill [[0x62]] ⟨List.replicate 4 0, 3, []⟩ = .ok ⟨buf, 1, log⟩ ∧ buf.take 1 = [0] ∧ (∀ i ∈ log, 1 ≤ i) ∧
+    fill [[0x62], [0x61]] ⟨List.replicate 4 0, 3, []⟩ = fill [[0x61]] ⟨buf, 1, log⟩ :=
+  C01_hyp_block_start_written_with_last_word_only [[0x62]] (by simp) [0x61]
+end SSVerif.HypBuf
